@@ -12,14 +12,19 @@ import CdsVerif.Algo.Vyukov.Model
 import CdsVerif.Algo.FreeList.Model
 import CdsVerif.Algo.TaggedFreeList.Model
 import CdsVerif.Algo.ReentrantSpin.Model
+import CdsVerif.Algo.PoolMonitor.Replay
+import CdsVerif.Algo.LockArray.Model
 import CdsVerif.Algo.HP.Replay
 import CdsVerif.Algo.DHP.Replay
 import CdsVerif.Algo.RCU.Model
 import CdsVerif.Algo.Michael.Model
+import CdsVerif.Algo.SplitList.Model
+import CdsVerif.Algo.Lazy.Model
 import CdsVerif.Algo.Iterable.Model
 import CdsVerif.Algo.Striped.Replay
 import CdsVerif.Algo.MSPQ.Model
 import CdsVerif.Algo.Segmented.Model
+import CdsVerif.Algo.FC.KernelR
 open CdsVerif.Driver
 
 partial def lcLoop (h : IO.FS.Stream) (st : LcState) : IO Unit := do
@@ -116,10 +121,27 @@ def main (args : List String) : IO UInt32 := do
     replayLoop stdin CdsVerif.Algo.ReentrantSpin.model (fun _ => CdsVerif.Algo.ReentrantSpin.init)
       (fun loc => loc.startsWith "L") (fun _ => true) none
     return 0
+  | ["replay", "poolmon"] =>
+    -- harness variant `pool_monitor_named` of the `locks` client after tools/poolmon_pre.py (the pool's choices are inputs:
+    -- `CALL pool_alloc t k` / `CALL pool_free t k`); initial state from the header word `cap=<preallocated pool locks>`
+    replayLoop stdin CdsVerif.Algo.PoolMonitor.rmodel (fun cfg => CdsVerif.Algo.PoolMonitor.initCfg cfg)
+      CdsVerif.Algo.PoolMonitor.relevantLoc (fun _ => true) none
+    return 0
+  | ["replay", "lockarray"] =>
+    -- harness variant `lock_array` of the `locks` client (trivial_select_policy); header word `size=<cells>`
+    replayLoop stdin (CdsVerif.Algo.LockArray.model CdsVerif.Algo.LockArray.selTrivial)
+      (fun cfg => CdsVerif.Algo.LockArray.initCfg cfg) (fun loc => loc.startsWith "L") (fun _ => true) none
+    return 0
   | ["replay", "michael"] =>
     -- harness variant `imichael_hp_named` of the `list` client: only `head` and `n<digits>` are model locations
     replayLoop stdin CdsVerif.Algo.Michael.model (fun _ => CdsVerif.Algo.Michael.init)
       (fun loc => loc == "head" || (loc.startsWith "n" && loc.length > 1 && (loc.drop 1).all Char.isDigit)) (fun _ => true) none
+    return 0
+  | ["replay", "lazy"] =>
+    -- harness variant `ilazy_hp_named` of the `list` client: model locations are `h`, `t`, `n<digits>` and their `.lock` words
+    replayLoop stdin CdsVerif.Algo.Lazy.model (fun _ => CdsVerif.Algo.Lazy.init)
+      (fun loc => let b := if loc.endsWith ".lock" then (loc.dropRight 5) else loc
+                  b == "h" || b == "t" || (b.startsWith "n" && b.length > 1 && (b.drop 1).all Char.isDigit)) (fun _ => true) none
     return 0
   | ["replay", "rcu"] =>
     -- initial state from the header words `flavour=gpi|gpb nthreads=<n> cap=<threshold> bufcap=<capacity()>`;
@@ -166,6 +188,13 @@ def main (args : List String) : IO UInt32 := do
     replayLoop stdin CdsVerif.Algo.Iterable.model (fun cfg => CdsVerif.Algo.Iterable.initCfg cfg)
       CdsVerif.Algo.Iterable.relevant (fun _ => true) none
     return 0
+  | ["replay", "splitlist"] =>
+    -- harness variant `isset_michael_hp_named` of the `hashset` client; configuration from the header words cap= lf= coll=
+    replayLoop stdin CdsVerif.Algo.SplitList.replayModel CdsVerif.Algo.SplitList.replayInit
+      (fun loc => loc == "cnt2" || loc == "maxc" || loc == "items" || loc == "acnt" ||
+        ((loc.startsWith "n" || loc.startsWith "d" || loc.startsWith "b") && loc.length > 1 && (loc.drop 1).all Char.isDigit))
+      (fun _ => true) none
+    return 0
   | ["replay", "ring"] =>
     -- initial state from the header words `cap=<capacity()>` and (optional) `rot=<warm-up rotations>`
     replayLoop stdin CdsVerif.Algo.Ring.model (fun cfg => CdsVerif.Algo.Ring.initCfg cfg)
@@ -175,6 +204,12 @@ def main (args : List String) : IO UInt32 := do
     -- harness variant `imspq_named` of the `pqueue` client; header words `cap=<capacity()>` `pre=<pre-filled values>`
     replayLoop stdin CdsVerif.Algo.MSPQ.rmodel (fun cfg => CdsVerif.Algo.MSPQ.rinit cfg)
       CdsVerif.Algo.MSPQ.relevant (fun _ => true) none
+    return 0
+  | ["replay", "fckernel"] =>
+    -- flat-combining kernel (C23): harness client `fckernel`, header words `threads=` `cf=` `pass=`; machine Algo/FC/KernelR
+    -- (carries the publication list in order); tools/fckernel_pre.py only renames pointer values, it drops nothing
+    replayLoop stdin CdsVerif.Algo.FC.KernelR.rmodel (fun cfg => CdsVerif.Algo.FC.KernelR.rinit cfg)
+      CdsVerif.Algo.FC.KernelR.isRecLoc CdsVerif.Algo.FC.KernelR.okB none
     return 0
   | _ =>
     IO.eprintln "usage: cdsdriver lincheck|replay <model>|eval <fn>"
